@@ -1003,6 +1003,8 @@ impl Thread {
                 None => break,
             }
         }
+        // The heap of the global state (loaded modules, interned data) is shared by every thread
+        owners.push(self.global_state.gc.lock().unwrap().verif_owner_id());
         owners
     }
 
